@@ -3,7 +3,8 @@
 Implementation: ``eups.table.Table(file, topProduct).actions(flavor, setupType)`` -> [(cmd, args, extra)] and
 ``eups.VersionParser.VersionParser(text).eval()`` for every condition on its own.
 Further observables: ``Table._actions`` (every chain, unselected branches too), the lines ``Table._rewrite`` returns,
-``Table.getDeclareOptions(flavor, setupType)``.
+``Table.getDeclareOptions(flavor, setupType)``; ``Eups(setupType=…, exact_version=…).setupType`` and what
+``Table.actions`` / ``Table.dependencies`` make of it (Model/SetupType.lean, ops "setuptype", "deptypes").
 Model: lean/EupsModel/Model/{Cond,TableParse}.lean through the driver handler "c11" (ops "table", "cond", "declopts",
 "parse", "rewrite").
 Oracle (ii): the generator builds the table as a syntax tree (commands, if / else-if / else chains, boolean
@@ -30,7 +31,9 @@ RULE = ("cases = (table text, flavor, setup types): tables of 1-8 items (command
         "table is evaluated for every flavor it mentions plus an unmentioned one, with TYPE absent / one / two types; "
         "chains of 6-9 branches (3 %), declareOptions written as options (k=v, k = v, quoted) whose pairs the generator "
         "knows; a lone quoted argument with escaped quotes / commas / runs of blanks, padded or not, escaped quotes next to "
-        "the opening / closing quote and in the first / last argument (floor of 10 cases per shape).  "
+        "the opening / closing quote and in the first / last argument (floor of 10 cases per shape); 400 setup-type cases "
+        "(a --type option as `setup` / `eups -T` / a caller pass it, words from the valid types and an invalid one, blank and "
+        "comma separators, --exact, a table with TYPE conditions, followExact for Table.dependencies).  "
         "A case is non-trivial when its table has a conditional chain, a legacy group or a quoted argument, or is an "
         "enumerated condition batch; distinct = distinct (text, flavor, types) digests")
 TRUSTED = ["CPython `re` on the patterns of table.py / VersionParser.py (hand-translated to list functions in the model; "
@@ -1067,6 +1070,167 @@ def enum_arg_cases(max_len, per_table=100, min_len=0):
     return out
 
 
+# ---- the setup type: from the command line to Table.actions ------------------------------------------------
+
+VALID_DEFAULT = ["exact", "build"]          # hooks.config.Eups.setupTypes
+
+
+def gen_setuptype_case(rng):
+    """A `--type` option (as `setup` passes it: the string; as `eups <cmd> -T` passes it: str.split(); or a list / None
+    given to Eups directly), an exact_version flag, a table with conditions over TYPE, a flavor.  `expect_*` is what
+    the option means (None: no claim — separators at the ends, commas in `eups -T`)."""
+    via = rng.choice(["setup", "setup", "cmd", "init_list", "init_none"])
+    valid = None if rng.random() < 0.7 else "build exact science"
+    valid_list = VALID_DEFAULT if valid is None else valid.split()
+    pool = valid_list + (["bogus"] if rng.random() < 0.15 else [])
+    words = rng.sample(pool, rng.randint(0, min(3, len(pool))))
+    exact = rng.choice([None, False, True])
+    claim = True
+    if via in ("setup", "cmd"):
+        seps = [rng.choice([" ", ",", ", ", "  ", " ,", "\t"] if via == "setup" else [" ", "  ", "\t", " ", ","]) for _ in words[1:]]
+        if via == "cmd" and any("," in x for x in seps):
+            claim = False
+        arg = "".join(w + x for w, x in zip(words, seps + [""]))
+        r = rng.random()
+        if r < 0.08:
+            arg, claim = rng.choice([" ", ","]) + arg, claim and via == "cmd" and not arg.startswith(",")
+        elif r < 0.16:
+            arg, claim = arg + rng.choice([" ", ","]), False
+        if via == "cmd" and ("," in arg):
+            claim = False
+    elif via == "init_list":
+        arg = list(words)
+    else:
+        arg, words = None, []
+    items = gen_table(rng)
+    features = set()
+    text = join_parts(render_table(rng, items, features))
+    fl, ty = mentioned(items)
+    flavor = rng.choice(fl + [rng.choice(OTHER_FLAVORS)])
+    follow = rng.choice([None, True, False])
+    case = {"kind": "setuptype", "via": via, "arg": arg, "exact": exact, "valid": valid, "text": text, "flavor": flavor,
+            "follow": follow, "expect_types": None, "expect_actions": None, "expect_deptypes": None}
+    if claim:
+        if any(w not in valid_list for w in words):
+            case["expect_types"] = "EupsException"
+        else:
+            types = list(words) + (["exact"] if exact is True and "exact" not in words else [])
+            case["expect_types"] = {"types": types, "exact": "exact" in types}
+            case["expect_actions"] = denote_table(items, flavor, types)
+            fe = follow if follow is not None else ("exact" in types)
+            case["expect_deptypes"] = types if fe else [t for t in types if t != "exact"]
+    return case
+
+
+_st_root = None
+
+
+def run_impl_setuptype(case):
+    global _st_root, _scratch
+    common.import_eups()
+    import eups.hooks as hooks
+    from eups.table import Table
+    from eups.Product import Product
+    import eups.utils as utils
+    hooks.config.Eups.defaultProduct["name"] = None
+    sink = io.StringIO()
+    utils.stderr = utils.stdwarn = utils.stdinfo = utils.stdok = sink
+    if _st_root is None:
+        _st_root = common.scratch("c11st")
+        common.mkstacks(_st_root)
+    out = {"types": None, "actions": None, "deptypes": None}
+    with contextlib.redirect_stderr(io.StringIO()), contextlib.redirect_stdout(io.StringIO()):
+        arg = case["arg"]
+        if case["via"] == "cmd":
+            arg = arg.split()                                    # cmd.py: setupType = self.opts.setupType.split()
+        kw = {}
+        if case["valid"] is not None:
+            kw["validSetupTypes"] = case["valid"]
+        try:
+            E = common.new_eups(setupType=list(arg) if isinstance(arg, list) else arg, exact_version=case["exact"], **kw)
+        except Exception as ex:  # noqa
+            out["types"] = type(ex).__name__
+            return out
+        out["types"] = {"types": list(E.setupType), "exact": bool(E.exact_version)}
+        path = os.path.join(_st_root, "t.table")
+        with open(path, "w") as f:
+            f.write(case["text"])
+        try:
+            table = Table(path, Product(PRODUCT, "1.0", flavor="Linux", dir="/nowhere/foo"))
+            out["actions"] = [canon_action(a) for a in table.actions(case["flavor"], setupType=E.setupType)]
+            seen = []
+
+            def spy(flavor, setupType=[], verbose=0):
+                seen.append(list(setupType))
+                return []
+            table.actions = spy
+            table.dependencies(E, followExact=case["follow"])
+            out["deptypes"] = seen[0] if len(seen) == 1 else {"err": "actions called %d times" % len(seen)}
+        except Exception as ex:  # noqa
+            out["actions"] = {"err": type(ex).__name__}
+    return out
+
+
+def run_impl_setuptype_chunk(cases):
+    global _st_root
+    res = [run_impl_setuptype(c) for c in cases]
+    if _st_root is not None:
+        common.rmtree(_st_root)
+        _st_root = None
+    return res
+
+
+def evaluate_setuptype(ctx, cases):
+    nw = 4
+    impl = parallel_map(run_impl_setuptype_chunk, [cases[i::nw] for i in range(nw)], workers=nw)
+    impls = [None] * len(cases)
+    for k, ch in enumerate(impl):
+        for j, v in enumerate(ch):
+            impls[k + j * nw] = v
+    valid = lambda c: VALID_DEFAULT if c["valid"] is None else c["valid"].split()  # noqa
+    a1 = ctx.lean.ask_many([{"m": "c11", "op": "setuptype", "arg": c["arg"], "exact": c["exact"] is True, "valid": valid(c),
+                             "via": "cmd" if c["via"] == "cmd" else "init"} for c in cases])
+    mts = [({"types": a["types"], "exact": a["exact"]} if a.get("out") == "ok" else a.get("err", a)) for a in a1]
+    reqs = []
+    for c, mt in zip(cases, mts):
+        if isinstance(mt, dict):
+            fe = c["follow"] if c["follow"] is not None else mt["exact"]
+            reqs.append({"m": "c11", "op": "table", "text": c["text"], "flavor": c["flavor"], "types": mt["types"], "pdir": PDIR})
+            reqs.append({"m": "c11", "op": "deptypes", "types": mt["types"], "followExact": bool(fe)})
+    a2 = iter(ctx.lean.ask_many(reqs))
+    for c, io_, mt in zip(cases, impls, mts):
+        mo = {"types": mt, "actions": None, "deptypes": None}
+        if isinstance(mt, dict):
+            a = next(a2)
+            mo["actions"] = a["actions"] if a.get("out") == "ok" else {"err": a.get("err", "fuel")}
+            mo["deptypes"] = next(a2)["types"]
+        inp = {k: c[k] for k in ("kind", "via", "arg", "exact", "valid", "text", "flavor", "follow")}
+        ctx.hist("kind=setuptype")
+        ctx.hist("setuptype_via=" + c["via"])
+        ctx.hist("setuptype=" + (io_["types"] if isinstance(io_["types"], str) else "%d types%s" % (len(io_["types"]["types"]), ", exact" if io_["types"]["exact"] else "")))
+        dec = unmodelled(mo["actions"])
+        ctx.case(key=[c["via"], c["arg"], c["exact"], c["valid"], c["text"], c["flavor"], c["follow"]], nontrivial=True, validated=not dec)
+        if dec:
+            ctx.hist("model_declined")
+            mo["actions"] = io_["actions"]
+        if mo["types"] != io_["types"]:
+            ctx.disagree("setup_type", inp, io_, mo)
+        elif mo["actions"] != io_["actions"]:
+            ctx.disagree("actions_via_setup_type", inp, io_, mo)
+        elif mo["deptypes"] != io_["deptypes"] and not isinstance(io_["actions"], dict):
+            ctx.disagree("dependencies_types", inp, io_, mo)
+        if c["expect_types"] is not None:
+            ctx.hist("setuptype_claimed")
+            if io_["types"] != c["expect_types"]:
+                ctx.fail("setup_type", inp, io_, mo, note="the option names %s, Eups holds %s" % (json.dumps(c["expect_types"]), json.dumps(io_["types"])))
+            elif c["expect_actions"] is not None and io_["actions"] != c["expect_actions"]:
+                ctx.fail("blocks_via_setup_type", inp, io_, mo, note="for flavor %s and the types of the option the table denotes %s, eups derives %s"
+                         % (c["flavor"], json.dumps(c["expect_actions"]), json.dumps(io_["actions"])))
+            elif c["expect_deptypes"] is not None and io_["deptypes"] != c["expect_deptypes"] and not isinstance(io_["actions"], dict):
+                ctx.fail("dependencies_types", inp, io_, mo, note="Table.dependencies must read the table for the types %s, it asked for %s"
+                         % (json.dumps(c["expect_deptypes"]), json.dumps(io_["deptypes"])))
+
+
 FLOORS_PRESENT = ("feature=else_if", "feature=else", "feature=empty_branch", "feature=quoted_arg", "feature=legacy",
                   "feature=cond_depth=2", "types=0", "types=2", "feature=first_and_last_quoted",
                   "feature=declare_options", "declare_options=some", "feature=branches>=8")
@@ -1120,6 +1284,12 @@ def run(ctx):
             generated += 1500
         else:
             evaluate(ctx, part)
+    if not ctx.out_of_time():
+        evaluate_setuptype(ctx, [gen_setuptype_case(ctx.rng) for _ in range(400)])
+        for need in ("setuptype_via=setup", "setuptype_via=cmd", "setuptype_via=init_list", "setuptype=EupsException",
+                     "setuptype=2 types, exact", "setuptype_claimed"):
+            if not ctx.histogram.get(need):
+                raise common.InfraError("degenerate distribution: no case with " + need)
     check_distribution(ctx, generated)
     if not ctx.n(0, 1):
         return
@@ -1138,7 +1308,12 @@ def run(ctx):
         while done < n:
             yield [gen_case(ctx.rng) for _ in range(min(k, n - done))]
             done += k
-    classes = [chunks(ec2, 100), chunks(ea2, 200), stream(97000, 1500)]
+    def st_stream(n, k):
+        done = 0
+        while done < n:
+            yield [gen_setuptype_case(ctx.rng) for _ in range(min(k, n - done))]
+            done += k
+    classes = [chunks(ec2, 100), chunks(ea2, 200), stream(97000, 1500), st_stream(6000, 400)]
     while classes and not ctx.out_of_time():
         for it in list(classes):
             if ctx.out_of_time():
@@ -1146,6 +1321,9 @@ def run(ctx):
             batch = next(it, None)
             if batch is None:
                 classes.remove(it)
+                continue
+            if batch and batch[0]["kind"] == "setuptype":
+                evaluate_setuptype(ctx, batch)
                 continue
             evaluate(ctx, batch)
             if batch and batch[0]["kind"] not in ("conds", "args_enum"):
@@ -1155,6 +1333,8 @@ def run(ctx):
 
 def replay(ctx, rp):
     c = rp["input"]
+    if c.get("kind") == "setuptype":
+        return replay_setuptype(ctx, c)
     r = common.in_child(run_impl_chunk, [c])
     io_ = r[1][0] if r[0] == "ok" else {"child": list(r)}
     mo = model_out(c, ctx.lean.ask_many(model_requests(c)))
@@ -1162,3 +1342,22 @@ def replay(ctx, rp):
     if r[0] == "ok":
         fails = [{"clause": cl, "class": k, "env": c["envs"][i], "detail": d} for cl, k, i, d in oracle(c, io_)]
     return {"input": c, "impl_output": io_, "model_output": mo, "agree": io_ == mo, "fails": fails}
+
+
+def replay_setuptype(ctx, c):
+    c = dict(c)
+    for k in ("expect_types", "expect_actions", "expect_deptypes"):
+        c.setdefault(k, None)
+    r = common.in_child(run_impl_setuptype_chunk, [c])
+    io_ = r[1][0] if r[0] == "ok" else {"child": list(r)}
+    valid = VALID_DEFAULT if c["valid"] is None else c["valid"].split()
+    a = ctx.lean.ask_many([{"m": "c11", "op": "setuptype", "arg": c["arg"], "exact": c["exact"] is True, "valid": valid,
+                            "via": "cmd" if c["via"] == "cmd" else "init"}])[0]
+    mo = {"types": {"types": a["types"], "exact": a["exact"]} if a.get("out") == "ok" else a.get("err"), "actions": None, "deptypes": None}
+    if isinstance(mo["types"], dict):
+        fe = c["follow"] if c["follow"] is not None else mo["types"]["exact"]
+        b = ctx.lean.ask_many([{"m": "c11", "op": "table", "text": c["text"], "flavor": c["flavor"], "types": mo["types"]["types"], "pdir": PDIR},
+                               {"m": "c11", "op": "deptypes", "types": mo["types"]["types"], "followExact": bool(fe)}])
+        mo["actions"] = b[0]["actions"] if b[0].get("out") == "ok" else {"err": b[0].get("err", "fuel")}
+        mo["deptypes"] = b[1]["types"]
+    return {"input": c, "impl_output": io_, "model_output": mo, "agree": io_ == mo, "fails": []}
